@@ -518,15 +518,46 @@ def derived(run, m, F, E):
                 # (data,size) of this
                 if not (isinstance(a[0], PtrV) and a[0].obj == e_this['storage'].obj and s2.is_eq0(a[0].off - e_this['storage'].off) is True and
                         isinstance(a[1], IntV) and s2.is_eq0(I.as_u(s2, a[1]) - e_this['size']) is True):
-                    problems.append('left operand is not (data(), size()) of *this')
+                    # a member that clamps the sizes itself before calling the plain core (the _n forms) hands on a shorter left
+                    # operand legitimately; anything that is not provably wrong is undecided
+                    ptr_ok = isinstance(a[0], PtrV) and a[0].obj == e_this['storage'].obj and s2.is_eq0(a[0].off - e_this['storage'].off) is True
+                    szl = I.as_u(s2, a[1]) if isinstance(a[1], IntV) else None
+                    over = s2.find_model([szl - e_this['size']], lambda vv: vv[0] > 0) if (ptr_ok and szl is not None) else None
+                    if over is not None:
+                        problems.append('left operand is longer than *this: (data(), %r) for a size of %r; witness %s' % (szl, e_this['size'], own_fmt(over)))
+                    elif ptr_ok and op in ('compare_n', 'compare_ni'):
+                        und.append('left operand is (data(), %r): a clamped size, not compared with min(size(), count)' % (szl,))
+                    elif ptr_ok and szl is not None and s2.find_model([szl - e_this['size']], lambda vv: vv[0] != 0) is None:
+                        und.append('left operand size %r not decided equal to size()' % (szl,))
+                    else:
+                        problems.append('left operand is not (data(), size()) of *this')
                 # (data,size) of other
                 if form == 'string':
                     if not (isinstance(a[2], PtrV) and a[2].obj == odata.obj and s2.is_eq0(a[2].off - odata.off) is True and
                             isinstance(a[3], IntV) and s2.is_eq0(I.as_u(s2, a[3]) - osize) is True):
-                        problems.append('right operand is not (data(), size()) of the argument')
+                        rptr_ok = isinstance(a[2], PtrV) and a[2].obj == odata.obj and s2.is_eq0(a[2].off - odata.off) is True
+                        szr = I.as_u(s2, a[3]) if isinstance(a[3], IntV) else None
+                        over_r = s2.find_model([szr - osize], lambda vv: vv[0] > 0) if (rptr_ok and szr is not None) else None
+                        if over_r is not None:
+                            problems.append('right operand is longer than the argument: %r units for a size of %r; witness %s' % (szr, osize, own_fmt(over_r)))
+                        elif rptr_ok and op in ('compare_n', 'compare_ni'):
+                            und.append('right operand is (data(), %r): a clamped size, not compared with min(size(), count)' % (szr,))
+                        else:
+                            problems.append('right operand is not (data(), size()) of the argument')
                 elif other_null:
                     if not (isinstance(a[3], IntV) and s2.is_eq0(I.as_u(s2, a[3])) is True and isinstance(a[2], PtrV) and I.ptr_nullness(s2, a[2]) is False):
-                        problems.append('null const char* is not treated as the empty string')
+                        # (a null pointer replaced by an empty text of the member's own is as good as ("", 0))
+                        sz3 = I.as_u(s2, a[3]) if isinstance(a[3], IntV) else None
+                        nonnull = isinstance(a[2], PtrV) and I.ptr_nullness(s2, a[2]) is False
+                        env3 = s2.find_model([sz3], lambda vv: vv[0] != 0) if sz3 is not None else None
+                        if env3 is not None and any(isinstance(k9, tuple) and k9[0] == 'strlen' for k9 in env3):
+                            env3 = None         # the measured length of a text of the member's own is not an input
+                        if not nonnull and I.ptr_nullness(s2, a[2]) is True and isinstance(a[2], PtrV):
+                            problems.append('null const char* is handed to the core as it is')
+                        elif env3 is not None:
+                            problems.append('null const char* is not treated as the empty string: the core is given %r units; witness %s' % (sz3, own_fmt(env3)))
+                        else:
+                            und.append('null const char*: the right operand handed to the core is not decided to be the empty string')
                 else:
                     sl = [x for x, k in (I.as_u(s2, a[3]).t if isinstance(a[3], IntV) else ()) if isinstance(x, tuple) and x[0] == 'strlen' and x[1] == 'STR']
                     if isinstance(a[3], IntV) and s2.is_eq0(I.as_u(s2, a[3]) - Lin.atom('slen')) is True:
@@ -535,7 +566,12 @@ def derived(run, m, F, E):
                         problems.append('right operand is not (str, strlen(str))')
                 if has_n:
                     if not (len(a) >= 5 and isinstance(a[4], IntV) and s2.is_eq0(I.as_u(s2, a[4]) - cnt.lin) is True):
-                        problems.append('the limit n is not handed to the core')
+                        # a member that clamps both sizes to n itself and calls the plain core has applied the limit already
+                        szl2 = I.as_u(s2, a[1]) if isinstance(a[1], IntV) else None
+                        if len(a) < 5 and szl2 is not None and s2.is_ge0(cnt.lin - szl2) is True:
+                            und.append('the limit n is applied by clamping the sizes before a plain core call: not compared further')
+                        else:
+                            problems.append('the limit n is not handed to the core')
                 elif len(a) >= 5:
                     problems.append('a limit is handed to the core although none was given')
                 # predicate on the result
